@@ -69,13 +69,26 @@ def random_tree(rnd, f, size, shape="mixed", nsrich=False, parent=0, top_doc=Non
             used = {f.n[x - 1]["ln"] for x in kids if f.n[x - 1]["k"] == "nsn"}
             px = rnd.choice(PXS)
             if px not in used:
-                uri = rnd.choice(["u1", "u2"] + ([""] if px == "" else []))
+                uri = rnd.choice(["u1", "u2"] + ([""] if px == "" else []) + ([XMLNS] if px != "" and rnd.random() < 0.25 else []))
+                if px != "" and rnd.random() < 0.12:
+                    # namespace names that need escaping inside the declaration (white space that attribute-value normalisation
+                    # would turn into a space, markup characters, the quote)
+                    uri = rnd.choice(["u\t3", "a\nb", "x<y", 'q"r&', "c\rd", "e  f"])
                 f.add(node("nsn", ln=px, u=uri), par)
                 count += 1
+                if uri not in ("u1", "u2", "", XMLNS):
+                    # ... and a name that lives in it
+                    if rnd.random() < 0.5:
+                        elems.append(f.add(node("elem", ns=uri, ln=rnd.choice(LNS)), par))
+                    else:
+                        f.add(node("attr", ns=uri, ln="z", t=cps("v")), par)
+                    count += 1
             continue
         if pk == "elem" and r < (0.4 if nsrich else 0.2):
             used = {(f.n[x - 1]["ns"], f.n[x - 1]["ln"]) for x in kids if f.n[x - 1]["k"] == "attr"}
             key = (rnd.choice(NSS), rnd.choice(LNS))
+            if key[0] != "" and rnd.random() < 0.3:
+                key = (key[0], "xmlns")          # an attribute called xmlns in a namespace is an ordinary attribute
             if rnd.random() < 0.1:
                 key = (XMLNS, "space")
             elif rnd.random() < 0.08:
@@ -98,15 +111,21 @@ def random_tree(rnd, f, size, shape="mixed", nsrich=False, parent=0, top_doc=Non
             e = f.add(node("elem", ns=rnd.choice(NSS), ln=rnd.choice(LNS)), par)
             elems.append(e)
             last = e
+            if rnd.random() < 0.04:
+                # a wide element: 9 to 12 attributes at once (code paths that switch strategy with the number of entries)
+                pool = [(u, l) for u in NSS for l in "defghijk"]
+                for key in rnd.sample(pool, rnd.randint(9, 12)):
+                    f.add(node("attr", ns=key[0], ln=key[1], t=cps(rnd.choice(["", "v", "w"]))), e)
+                    count += 1
         elif r < 0.82:
             if last_is_text and f.cons:
                 continue
             f.add(node("text", t=cps(rnd.choice(["x", " ", "xy", " x ", "\n", "X"]))), par)
         elif r < 0.91:
-            f.add(node("comm", t=cps(rnd.choice(["k", "x", ""]))), par)
+            f.add(node("comm", t=cps(rnd.choice(["k", "x", "", "a\rb", "l1\r\nl2", "\r"]))), par)
         else:
             has = rnd.random() < 0.5
-            f.add(node("pi", ln=rnd.choice(LNS + ["xml-stylesheet", "xmlx", "XmL1"]), t=cps("d") if has else [], d=has), par)
+            f.add(node("pi", ln=rnd.choice(LNS + ["xml-stylesheet", "xmlx", "XmL1"]), t=cps(rnd.choice(["d", "d ", "a  b\t", "x\n", "d", "x\ry", "d\r"])) if has else [], d=has), par)
         count += 1
     return root
 
@@ -130,7 +149,7 @@ def copy_subtree(f, src, rnd=None, mutate=None):
     return r, mapping
 
 
-MUTATIONS = ["attr-rename", "attr-rename-empty", "pi-target", "pi-data", "comment-text", "name", "namespace", "attr-value", "extra-attr", "text-char", "comment", "child-order", "prefix-only", "decl-only",
+MUTATIONS = ["nest-next", "hoist-last", "nest-next", "hoist-last", "pi-data-case", "pi-data-pad", "pi-data-case", "pi-data-pad", "attr-rename", "attr-rename-empty", "pi-target", "pi-data", "comment-text", "name", "namespace", "attr-value", "extra-attr", "text-char", "comment", "child-order", "prefix-only", "decl-only",
              "attr-order", "case", "spaces", "drop-comment", "none"]
 
 
@@ -152,7 +171,14 @@ def mutate(f, root, rnd):
     nsn = [i for i in ids if f.n[i - 1]["k"] == "nsn"]
     try:
         pis = [i for i in ids if f.n[i - 1]["k"] == "pi"]
-        if m == "pi-target" and pis:
+        if m in ("pi-data-case", "pi-data-pad") and pis:
+            # differences only a text comparison can bridge: letter case, surrounding spaces
+            x = rnd.choice(pis)
+            if not f.n[x - 1]["d"]:
+                f.n[x - 1]["d"], f.n[x - 1]["t"] = True, [100]
+            tt = f.n[x - 1]["t"]
+            f.n[x - 1]["t"] = [c - 32 if 97 <= c <= 122 else c for c in tt] if m == "pi-data-case" else tt + [32]
+        elif m == "pi-target" and pis:
             x = rnd.choice(pis)
             f.n[x - 1]["ln"] = rnd.choice([q for q in LNS + ["alpha"] if q != f.n[x - 1]["ln"]])
         elif m == "pi-data" and pis:
@@ -234,6 +260,34 @@ def mutate(f, root, rnd):
             used = {f.n[y - 1]["ln"] for y in f.n[e - 1]["c"] if f.n[y - 1]["k"] == "nsn"}
             if "r" not in used:
                 f.add(node("nsn", ln="r", u="u2"), e)
+        elif m in ("nest-next", "hoist-last") and elems:
+            # the same nodes in the same document order, nested differently: <b/><c/> against <b><c/></b>
+            def normal(i):
+                return [x for x in f.n[i - 1]["c"] if f.n[x - 1]["k"] not in ("nsn", "attr")]
+            cands = []
+            for e in elems:
+                par = f.n[e - 1]["p"]
+                if not par or e == root:
+                    continue
+                sib = normal(par)
+                k = sib.index(e)
+                kids = normal(e)
+                if m == "nest-next" and k + 1 < len(sib) and f.n[sib[k + 1] - 1]["k"] == "elem" and (not kids or f.n[kids[-1] - 1]["k"] != "text" or True):
+                    cands.append((e, sib[k + 1]))
+                if m == "hoist-last" and kids and f.n[kids[-1] - 1]["k"] == "elem":
+                    cands.append((e, kids[-1]))
+            if cands:
+                e, x = rnd.choice(cands)
+                par = f.n[e - 1]["p"]
+                if m == "nest-next":
+                    f.n[par - 1]["c"].remove(x)
+                    f.n[e - 1]["c"].append(x)
+                    f.n[x - 1]["p"] = e
+                else:
+                    f.n[e - 1]["c"].remove(x)
+                    c = f.n[par - 1]["c"]
+                    c.insert(c.index(e) + 1, x)
+                    f.n[x - 1]["p"] = par
         elif m == "attr-order" and elems:
             cands = [e for e in elems if len([x for x in f.n[e - 1]["c"] if f.n[x - 1]["k"] == "attr"]) >= 2]
             if cands:
@@ -256,15 +310,15 @@ def sandwich_forest(rnd):
     """a parent whose children alternate text / non-text (no two text nodes adjacent), where a text node may be EMPTY
     (an explicitly created empty text node is a node like any other), plus a detached node to move in"""
     f = Forest(True)
-    root = f.add(node("doc")) if rnd.random() < 0.3 else f.add(node("elem", ln="a"))
+    root = f.add(node("doc")) if rnd.random() < 0.5 else f.add(node("elem", ln="a"))
     n = rnd.choice([3, 3, 4, 5])
-    text_turn = rnd.random() < 0.6
+    text_turn = rnd.random() < 0.5
     for _ in range(n):
         if text_turn:
             f.add(node("text", t=cps(rnd.choice(["", "", "x", " ", "xy"]))), root)
         else:
             k = rnd.choice(["elem", "elem", "comm", "pi"])
-            f.add(node(k, ln="b" if k != "comm" else "", t=cps("c") if k == "comm" else []), root)
+            f.add(node(k, ns=rnd.choice(["", "", "u1"]) if k == "elem" else "", ln="b" if k != "comm" else "", t=cps("c") if k == "comm" else []), root)
         text_turn = not text_turn
     if rnd.random() < 0.7:
         k = rnd.choice(["text", "elem", "comm"])
